@@ -2,8 +2,20 @@
 """seed_prompt.py <ID>: print the brief given to an independent sub-agent that seeds a property-breaking change."""
 import json, sys
 pid = sys.argv[1]
+rnd = int(sys.argv[2]) if len(sys.argv) > 2 else 1
 p = [json.loads(l) for l in open('/verif/properties.jsonl') if json.loads(l)['id'] == pid][0]
-wt = "/tmp/seed-%s" % pid
+wt = "/tmp/seed-%s" % pid if rnd == 1 else "/tmp/seed%d-%s" % (rnd, pid)
+# earlier rounds' ideas (one line each), so that a new round explores something else; nothing about how anything is checked
+import glob, os
+earlier = []
+for d in sorted(glob.glob('/verif/seeded/%s-*' % pid)):
+    try:
+        earlier.append(json.load(open(os.path.join(d, 'meta.json')))['summary'])
+    except Exception:
+        pass
+avoid = ""
+if earlier:
+    avoid = "\nEarlier attempts already used the following ideas; do something DIFFERENT (another site, another mechanism, another trigger condition):\n" + "\n".join("  - " + e for e in earlier) + "\n"
 print(f"""You are helping test a verification effort for the C++ library GabrielDosReis/ipr (IPR: a compiler-neutral, hash-consed internal representation of C++ programs: node factories, string interning, visitors, pretty-printer).
 
 You have your own scratch git worktree of the library at {wt} (a checkout of the current tree). Work ONLY inside {wt}. Do not read or touch /repo, /verif or any other directory outside {wt} (system headers/compilers are fine). There is no network.
@@ -28,5 +40,6 @@ Deliverables, all inside {wt}/_seed/ (create the directory):
   3. meta.json   -- {{"property": "{pid}", "summary": "<one sentence: what the change does>", "needs": "<what specific condition is needed for it to manifest>", "files": [...], "ran": ["<commands you ran and their outcome: build, 17 tests pass, demo fails with change, demo passes without>"]}}
 Leave the worktree with your change APPLIED at the end (uncommitted), with _build containing the passing test build. Do not commit anything.
 
+{avoid}
 Important: be independent and creative -- choose a failure mode that you think a thorough runtime-monitoring harness might plausibly MISS (rare path, specific overload, boundary condition, late-history effect). Report back briefly: the summary, the condition it needs, and confirmation of (a), and of the demo failing/passing.
 """)
